@@ -205,9 +205,9 @@ def cmd_check(prop, tier, n_runs=None, jobs=None):
     # 3. determinism sample: first 32 runs again, in fresh workers
     det = {'runs_reexecuted': 0, 'mismatches': 0}
     if batch.completed and not os.environ.get('VERIF_NO_DETCHECK'):
-        nd = min(32, n_runs)
-        again = core.Batch(prop, seed, tier, nd, cfg['wall_cap'], jobs=core.HASH_CLASSES,
-                           chunk=8, keep_digests=True).run()
+        sample = sorted(r for r in core.DET_SAMPLE if r < n_runs)
+        again = core.Batch(prop, seed, tier, len(sample), cfg['wall_cap'], jobs=core.HASH_CLASSES,
+                           chunk=4, keep_digests=True, run_list=sample).run()
         for r, d in again.run_digests.items():
             if r in batch.run_digests:
                 det['runs_reexecuted'] += 1
